@@ -90,3 +90,14 @@ Lemma poisoned_for_ever n : pull_result (clean_retry (iter_n n retry_store (retr
 Proof. rewrite poisoned_iter. exact (proj2 poisoned_fixed_point). Qed.
 Lemma poisoned_first : pull_result (clean_retry poisoned) = PFail.
 Proof. vm_compute. reflexivity. Qed.
+
+(** *** the retry clause is not vacuous: a truthful history that leaves resume state with a corrupt byte; the first
+    fault-free attempt resumes, finds the digest wrong, removes everything and fails; the second one succeeds *)
+Definition interrupted_corrupt : penv :=
+  mkPenv (Some toyM) [mkBenv (Some 3) true (const_chunks [(2, [CBody [1; 0]%N EUnexp])])].
+Definition stale_store : store := history_fx toyH true go_consts [(7%N, interrupted_corrupt)].
+Lemma stale_state : lookup N.eqb 1%N (s_dl stale_store) = Some (mkDl (Some [1; 0; 0]%N) [mkPart 0 3 2]).
+Proof. vm_compute. reflexivity. Qed.
+Lemma stale_first_retry_fails_second_succeeds :
+  pull_result (clean_retry stale_store) = PFail /\ pull_result (clean_retry (retry_store stale_store)) = PSuccess.
+Proof. vm_compute. split; reflexivity. Qed.
